@@ -97,3 +97,32 @@ Proof.
   - intros p Hin. rewrite forallb_forall in Hp. apply Hp; exact Hin.
   - intros ws w E Hin. rewrite E in Hw. rewrite forallb_forall in Hw. apply Hw; exact Hin.
 Qed.
+
+(** A type / lifetime parameter that passes the check and has bounds prints them right after its name:
+    [gp_rest] is [":" ++ bounds joined by "+"] followed by nothing, a trailing "+", or a default. *)
+Theorem gparam_ok_decomposes : forall g b bs,
+  gp_kind g <> GConst -> gp_bounds g = b :: bs -> gparam_ok g = true ->
+  exists tail, gp_rest g = pc ":" :: join [plus] (b :: bs) ++ tail /\
+    (tail = [] \/ tail = [plus] \/ exists t u r, tail = t :: u :: r /\ (is_p "=" t = true \/ (is_p "+" t = true /\ is_p "=" u = true))).
+Proof.
+  intros g b bs Hk Hb H. unfold gparam_ok in H. rewrite Hb in H.
+  destruct (gp_kind g); try congruence.
+  - destruct (gp_rest g) as [|t rest]; [discriminate|].
+    apply andb_prop in H. destruct H as [Ht H]. unfold is_p in Ht. apply tt_eqb_eq in Ht. subst t.
+    destruct (is_prefix (join [plus] (b :: bs)) rest) as [tail|] eqn:E; [|discriminate].
+    apply is_prefix_spec in E. exists tail. split; [rewrite E; reflexivity|].
+    destruct tail as [|u [|v r]].
+    + left; reflexivity.
+    + right; left. unfold is_p in H. apply tt_eqb_eq in H. subst u. reflexivity.
+    + right; right. exists u, v, r. split; [reflexivity|].
+      apply orb_prop in H. destruct H as [H|H]; [left; exact H|right; apply andb_prop in H; exact H].
+  - destruct (gp_rest g) as [|t rest]; [discriminate|].
+    apply andb_prop in H. destruct H as [Ht H]. unfold is_p in Ht. apply tt_eqb_eq in Ht. subst t.
+    destruct (is_prefix (join [plus] (b :: bs)) rest) as [tail|] eqn:E; [|discriminate].
+    apply is_prefix_spec in E. exists tail. split; [rewrite E; reflexivity|].
+    destruct tail as [|u [|v r]].
+    + left; reflexivity.
+    + right; left. unfold is_p in H. apply tt_eqb_eq in H. subst u. reflexivity.
+    + right; right. exists u, v, r. split; [reflexivity|].
+      apply orb_prop in H. destruct H as [H|H]; [left; exact H|right; apply andb_prop in H; exact H].
+Qed.
